@@ -200,4 +200,5 @@ off the running library through reflection on every run; see `C19_timeout_on_the
 a wall-clock number would deliver every buffered event, with none of the three causes, when the system clock is
 stepped forward. -/
 theorem C10_timeout_on_the_monotonic_clock :
-    LA.Gen.ReasmFacts.deadlinesMonotonic ≠ [] ∧ LA.Gen.ReasmFacts.deadlinesMonotonic.all (· == true) = true := by decide
+    LA.Gen.ReasmFacts.deadlinesMonotonic ≠ [] ∧ LA.Gen.ReasmFacts.deadlinesMonotonic.all (· == true) = true ∧
+    LA.Gen.ReasmFacts.clockStrips = [] := by decide
